@@ -323,8 +323,8 @@ func tokGen(rt *rapid.T) tokPlan {
 	base := tokGenPolicy(rt, baseAtt)
 
 	nRPC := rapid.IntRange(3, vk.Pick(12, 40)).Draw(rt, "nrpc")
-	b := cfg.max        // generator-side steering state (not the oracle)
-	exhausted := false  // an earlier RPC exhausted its attempts
+	b := cfg.max       // generator-side steering state (not the oracle)
+	exhausted := false // an earlier RPC exhausted its attempts
 	for i := 0; i < nRPC; i++ {
 		var r rig.RPC
 		r.Policy = base
